@@ -10,14 +10,23 @@ Assumption needed by every result here: the end-of-input token has type `EOF` (`
 returning the last token, and a loop that waits for `)` or `EOF` spins until the fuel is gone —
 see `outOfFuel_reachable_without_eof` below.
 
-Proved (`…_partial` = the per-loop facts, each for all states with `eof.type = EOF`):
-the token-collecting loops `collectUntil`, `valueLoop`, `collectUntilRange`, `switchOperandLoop`,
-`tableCollect`, `constLoop` do not run out of fuel when `fuel ≥ toks.length + 1`
+This file: the calculus (`nf_bind`, … , `nfsimp`) and the per-loop facts (`…_partial`, each for all states
+with `eof.type = EOF`): the token-collecting loops `collectUntil`, `valueLoop`, `collectUntilRange`,
+`switchOperandLoop`, `tableCollect`, `constLoop` do not run out of fuel when `fuel ≥ toks.length + 1`
 (each iteration that recurses has consumed one token).
-Only stated (`def parser_total_full : Prop`): the same for `parseTokens` itself.  What is missing is
-the analogous bound for the nested functions (format / list / command arguments, the boolean block,
-the statement block, the top level), where a constant number of fuel units is used between two
-consumed tokens; the calculus (`nf_bind`, …) is set up for it.
+The full statement `parser_total_full` (stated here) is PROVED as `parser_total` /
+`parser_never_out_of_fuel` in `PoryProofs/ParserFuel6.lean`:
+* `ParserFuel2.lean`, `ParserFuel3.lean` — `Dec k m`: below statement level, a successful run of `m` shortens
+  the token window by at least `k` tokens (`k = 1` for the poryswitch header, the poryswitch list statement,
+  the leaf and the whole boolean expression; `k = 0` otherwise);
+* `ParserFuel4.lean` — `SDec 0`: the same for the 13 functions of the statement block (one induction on the
+  fuel, `sdecAll`) and for the top-level statements; `eof` is never changed;
+* `ParserFuel5.lean` — below statement level, `4 * toks.length + c ≤ fuel → nf` with `c` = 1 … 6
+  (`formatNamedParams`, text values and the simple loops only need `toks.length + 1 ≤ fuel`);
+* `ParserFuel6.lean` — the statement block (`nfAll`: `c` = 6 for conditions / `elif`s / `case`s / poryswitch
+  cases, 7 for `if` / `while` / `do` / `switch` / `poryswitch`, 8 for `parseStatement`, 9 for the three
+  block loops), map scripts (10, 11), the top level loop, `parseProgramM`, `parseTokens` (which gives 50).
+No loop of the model can iterate without consuming a token, so no change to the model was needed.
 -/
 namespace Pory.Parser
 open Pory
@@ -68,14 +77,44 @@ theorem nf_curIs (t : TT) (s : PState) : nf (curIs t) s ↔ True := by
 theorem nf_tryReplace (v : String) (s : PState) : nf (tryReplaceWithConstant v) s ↔ True := by
   unfold tryReplaceWithConstant; simp only [nf_bind, nf_get, nf_pure, wp_get, and_self]
 
+theorem nf_set (s1 s : PState) : nf (set s1 : PM PUnit) s ↔ True := by
+  simp [nf, StateT.run, set, StateT.set, pure, Except.pure]
+theorem nf_peek2 (s : PState) : nf peek2 s ↔ True := nf_peekAt 2 s
+theorem nf_peek3 (s : PState) : nf peek3 s ↔ True := nf_peekAt 3 s
+theorem nf_peek4 (s : PState) : nf peek4 s ↔ True := nf_peekAt 4 s
+theorem nf_peekIs (t : TT) (s : PState) : nf (peekIs t) s ↔ True := by
+  unfold peekIs; simp only [nf_bind, nf_peek, nf_pure, wp_peek, and_self]
+theorem nf_peek2Is (t : TT) (s : PState) : nf (peek2Is t) s ↔ True := by
+  unfold peek2Is; simp only [nf_bind, nf_peek2, nf_pure, wp_peek2, and_self]
+theorem nf_expectPeek (t : TT) (s : PState) : nf (expectPeek t) s ↔ True := by
+  unfold expectPeek
+  simp only [nf_bind, nf_peekIs, nf_ite, nf_nextToken, nf_pure, wp_peekIs, wp_nextToken, true_and, ite_self]
+theorem nf_expectPeekErr (t : TT) (s : PState) : nf (expectPeekErr t) s ↔ True := by
+  unfold expectPeekErr
+  simp only [nf_bind, nf_peek, nf_ite, nf_nextToken, nf_fail, notFuel_err, wp_peek, true_and, ite_self]
+theorem nf_newSid (s : PState) : nf newSid s ↔ True := by
+  unfold newSid; simp only [nf_bind, nf_get, nf_set, nf_pure, wp_get, wp_set, and_self]
+theorem nf_pushBreak (x : Nat) (s : PState) : nf (pushBreak x) s ↔ True := by
+  unfold pushBreak; exact nf_modify _ s
+theorem nf_popBreak (s : PState) : nf popBreak s ↔ True := by unfold popBreak; exact nf_modify _ s
+theorem nf_pushContinue (x : Nat) (s : PState) : nf (pushContinue x) s ↔ True := by
+  unfold pushContinue; exact nf_modify _ s
+theorem nf_popContinue (s : PState) : nf popContinue s ↔ True := by unfold popContinue; exact nf_modify _ s
+theorem notFuel_panic (w : String) : NotFuel (.panic w) ↔ True := iff_true_intro (fun h => by cases h)
+
 /-- Symbolic execution for `nf`. -/
 syntax "nfsimp" (" [" Lean.Parser.Tactic.simpLemma,* "]")? : tactic
 macro_rules
-  | `(tactic| nfsimp) => `(tactic| wpsimp [nf_bind, nf_pure, nf_fail, nf_ite, notFuel_err, notFuel_rerr,
-      notFuel_fuel, nf_get, nf_modify, nf_cur, nf_peek, nf_nextToken, nf_curIs, nf_tryReplace, and_true, true_and])
-  | `(tactic| nfsimp [$ts,*]) => `(tactic| wpsimp [nf_bind, nf_pure, nf_fail, nf_ite, notFuel_err, notFuel_rerr,
-      notFuel_fuel, nf_get, nf_modify, nf_cur, nf_peek, nf_nextToken, nf_curIs, nf_tryReplace, and_true, true_and,
-      $ts,*])
+  | `(tactic| nfsimp) => `(tactic| swp [nf_bind, nf_pure, nf_fail, nf_ite, notFuel_err, notFuel_rerr,
+      notFuel_fuel, notFuel_panic, nf_get, nf_set, nf_modify, nf_cur, nf_peek, nf_peek2, nf_peek3, nf_peek4,
+      nf_nextToken, nf_curIs, nf_peekIs, nf_peek2Is, nf_expectPeek, nf_expectPeekErr, nf_tryReplace, nf_newSid,
+      nf_pushBreak, nf_popBreak, nf_pushContinue, nf_popContinue, wp_modify, wp_set, and_true, true_and,
+      wp_true_iff])
+  | `(tactic| nfsimp [$ts,*]) => `(tactic| swp [nf_bind, nf_pure, nf_fail, nf_ite, notFuel_err, notFuel_rerr,
+      notFuel_fuel, notFuel_panic, nf_get, nf_set, nf_modify, nf_cur, nf_peek, nf_peek2, nf_peek3, nf_peek4,
+      nf_nextToken, nf_curIs, nf_peekIs, nf_peek2Is, nf_expectPeek, nf_expectPeekErr, nf_tryReplace, nf_newSid,
+      nf_pushBreak, nf_popBreak, nf_pushContinue, nf_popContinue, wp_modify, wp_set, and_true, true_and,
+      wp_true_iff, $ts,*])
 
 /-- After the window is exhausted the current token is the `EOF` token. -/
 theorem headD_tail_eof {l : List Tok} {eof : Tok} (he : eof.type = .EOF)
@@ -202,7 +241,7 @@ theorem constLoop_fuel_partial :
       have := headD_not_eof he h'
       exact ih _ _ he (by simp only [upd_toks]; omega)
 
-/-- The full property (not proved): on a token list that ends with an `EOF` token the parser does
+/-- The full property (proved: `parser_total` in `ParserFuel6.lean`): on a token list that ends with an `EOF` token the parser does
 not run out of the fuel `parseTokens` gives it. -/
 def parser_total_full : Prop :=
   ∀ (env : Env) (toks : List Tok), (toks.getLastD { type := .EOF }).type = .EOF →
